@@ -1710,6 +1710,8 @@ class Interp:
         n = node
         while n['k'] == 'MethodCall' and n['method'] in ('as_ref', 'as_mut', 'clone', 'cloned', 'copied', 'as_deref'):
             n = n['recv']
+        if n['k'] == 'MethodCall' and n['method'] == 'take' and not n['args']:
+            return True    # Option::take(); Iterator::take(n) has an argument
         if n['k'] == 'MethodCall' and n['method'] in ('iter', 'into_iter', 'keys', 'values', 'iter_mut', 'enumerate', 'filter', 'map', 'filter_map', 'flat_map',
                                                       'rev', 'skip', 'take', 'chars', 'lines', 'chain', 'zip', 'drain', 'windows', 'chunks'):
             return False
